@@ -261,6 +261,10 @@ func (e *fnEnc) havocLocated(con *Contract, key, loc string, args []Term, extra 
 	if err != nil {
 		e.fail("%s:%d: assigns location: %v", con.File, con.Line, err)
 	}
+	if e.lastPre == nil {
+		e.lastPre = map[string]string{}
+	}
+	e.lastPre[h.Key] = e.curHeapTerm(h)
 	nv := e.fresh("hv.loc", h.Elem)
 	e.typeFacts(Term{nv, h.Elem, nil}, "")
 	cur := e.curHeapTerm(h)
@@ -538,6 +542,17 @@ func (e *fnEnc) sortSlice(in ssa.Instruction, cc *ssa.CallCommon, args []Term) [
 // expansion of Sprintf, and the %w wrapping of Errorf (A-FMT).
 func (e *fnEnc) fmtSpecial(key string, cc *ssa.CallCommon, args []Term, res []Term) {
 	switch key {
+	case "fmt.Fprintf":
+		h := e.U.heaps["ghost.out"]
+		if f, ok := constFormat(cc.Args[1]); ok && h != nil {
+			if t, ok := e.expandFormat(f, args[2].S); ok {
+				// the havocked cell is the old content followed by the expansion
+				cur := e.curHeapTerm(h)
+				e.assert(fmt.Sprintf("(=> %s (= (select %s (wid %s)) (s.cat (select %s (wid %s)) %s)))", e.curReach, cur, args[0].S, e.lastPre[h.Key], args[0].S, t))
+				return
+			}
+		}
+		e.note("fmt.Fprintf with a non-constant or unsupported format: output abstracted")
 	case "fmt.Sprintf":
 		if f, ok := constFormat(cc.Args[0]); ok {
 			if t, ok := e.expandFormat(f, args[1].S); ok {
